@@ -37,6 +37,9 @@ type throwEvent struct {
 	awaitingActions []chan IAction
 	once            sync.Once
 	satisfier       *logic.ThrowEventSatisfier
+	// started tells whether the node's loop exists (it is started by Trigger
+	// or by the first token that reaches the node)
+	started atomic.Bool
 }
 
 func newThrowEvent(wr *wiring, element *schema.ThrowEvent, idGenerator id.IGenerator) (evt *throwEvent, err error) {
@@ -88,8 +91,14 @@ func (evt *throwEvent) run(ctx context.Context, sender tracing.ISenderHandle) {
 }
 
 func (evt *throwEvent) ConsumeEvent(ev event.IEvent) (result event.ConsumptionResult, err error) {
-	evt.mch <- eventMessage{event: ev}
 	result = event.Consumed
+	if !evt.started.Load() {
+		// The throw event has not been triggered and no token has reached it:
+		// nothing drains the mailbox. Queueing the event here only fills it
+		// and, after 2n+1 events, blocks the publisher for ever.
+		return
+	}
+	evt.mch <- eventMessage{event: ev}
 	return
 }
 
@@ -103,6 +112,7 @@ func (evt *throwEvent) Trigger(ctx context.Context) {
 	evt.once.Do(func() {
 		sender := evt.tracer.RegisterSender()
 		go evt.run(ctx, sender)
+		evt.started.Store(true)
 	})
 
 	evt.mch <- startMessage{}
@@ -112,6 +122,7 @@ func (evt *throwEvent) NextAction(ctx context.Context, flow Flow) chan IAction {
 	evt.once.Do(func() {
 		sender := evt.tracer.RegisterSender()
 		go evt.run(ctx, sender)
+		evt.started.Store(true)
 	})
 
 	response := make(chan IAction, 1)
